@@ -94,7 +94,9 @@ def match_tag(token, regex=match_tag_prefix_and_name):
         simple_value = attr.pop('simple_value', None)
         if simple_value is not None:
             attr['quote'] = ''
-            attr['value'] = ''
+            # (the empty value keeps its position: it is where an error
+            # in a statement written without a value is located)
+            attr['value'] = simple_value
             attr['eq'] = ''
         attrs.append(attr)
         d['suffix'] = token[m.end():]
